@@ -150,6 +150,21 @@ def check_C15(tier_, sd, consts_ok, consts_detail):
         d = parse_obs(o); return (d["verdict"], d["F"].get("/s.txt"))
     ebad = [k for k in range(len(e2e_cases)) if norm_e(eimpl[k]) != norm_e(emodel[k])]
 
+    # continuation lines must stay continuation lines in EVERY pass: a file that has a dependency is first read in the
+    # dependency-collecting mode; look-alike continuation lines must not be taken for directives there
+    cprojs = []
+    looks = ["TXTPP#include other.txt", "TXTPP#after other.txt", "   TXTPP#run x", "TXTPP#tag T", "TXTPP#", "-TXTPP#include other.txt", "plain", ""]
+    for j, (ty, look) in enumerate(itertools.product(["write w0", "run printf '%s' a", "temp t.tmp", ""], looks)):
+        for form in ("=", " "):
+            p = Project("cd%d%s" % (j, "p" if form == "=" else "s"))
+            main = "top\n-TXTPP#include dep.txt\n=TXTPP#%s\n%s%s\n%sz\n\nend\n" % (ty, form, look, form)
+            p.files = [("/main.txt.txtpp", main.encode()), ("/dep.txt.txtpp", b"dep\n"), ("/other.txt.txtpp", b"other must not be built\n")]
+            p.inputs = ["main.txt"]; p.sched = [0] * 8
+            cprojs.append(p)
+    complete_oracles(cprojs)
+    ccases = [p.text() for p in cprojs]
+    cimpl = [parse_obs(x) for x in run_impl(ccases)]; cmodel = [parse_obs(x) for x in run_model(ccases)]
+    cbad = [k for k in range(len(cprojs)) if (cimpl[k]["verdict"], cimpl[k]["F"], cimpl[k]["T"]) != (cmodel[k]["verdict"], cmodel[k]["F"], cmodel[k]["T"])]
     violations = []
     def mk(kind, case, i, m):
         return {"found": True, "replay": {"property": "C15", "kind": kind, "correspondence": "Grammar.%s vs Directive::%s" % (kind, kind),
@@ -160,6 +175,8 @@ def check_C15(tier_, sd, consts_ok, consts_detail):
     for (c_, i_, m_) in extra_bad[:5]: violations.append(mk("detect_from", c_, i_, m_))
     for k in abad[:5]: violations.append(mk("add_line", acases[k], aimpl[k], amodel[k]))
     for k in ebad[:5]: violations.append(mk("whole-file line kept vs consumed", e2e_cases[k], eimpl[k], emodel[k]))
+    for k in cbad[:5]:
+        violations.append(proj_violation("C15", "a continuation line was not treated as a continuation in one of the passes (file with a dependency: first pass collects dependencies)", cprojs[k], cimpl[k], cmodel[k]))
     for b in vmbad[:3]:
         violations.append({"found": False, "replay": {"property": "C15", "broken": "extracted evaluator disagrees with vm_compute", "detail": b}})
     kinds = collections.Counter(m.split(" ")[3] if m != "D -" else "-" for m in model)
@@ -175,7 +192,7 @@ def check_C15(tier_, sd, consts_ok, consts_detail):
         "samples": [decode_case(dcases[detected[len(detected) // 3]]), decode_case(acases[len(acases) // 2])] if detected and acases else [],
         "detect_cases": len(dcases) + extra_detect, "detect_distribution": dict(kinds),
         "addline_cases": len(acases), "addline_distribution": dict(akinds),
-        "whole_file_cases": len(e2e_cases),
+        "whole_file_cases": len(e2e_cases), "two_pass_continuation_cases": len(cprojs),
         "vm_compute_crosschecked": nvm,
         "disagreements": len(bad) + len(extra_bad) + len(abad) + len(ebad),
     }
@@ -678,6 +695,21 @@ def check_C13(tier_, sd, consts_ok, consts_detail):
                     violations.append(proj_violation("C13", "the option changed a temp file: %s" % path, on[k], ion, mon, extra={"on": short(x), "off": short(y)}))
         if (ion["verdict"], ion["F"]) != (mon["verdict"], mon["F"]) or (ioff["verdict"], ioff["F"]) != (moff["verdict"], moff["F"]):
             if len(violations) < 5: violations.append(proj_violation("C13", "bytes differ from the model under one of the two settings", on[k], ion, mon, found=False))
+    # history: built with the option on, then rebuilt with --needed and the option off (and the other way round):
+    # the result must be the option-off (resp. on) output, not the leftover
+    hist = []
+    for k, p in enumerate(base[: 150 if tier_ == "quick" else 3000]):
+        for (src_obs, tn) in ((oi[k], False), (oi[n + k], True)):
+            if src_obs["verdict"] != "ok": continue
+            q = follow(p, src_obs, "%s.h%d" % (p.id, int(tn))); q.mode = 1; q.trailing = tn; q.cmds = p.cmds
+            q.want = oi[k if tn else n + k]["F"]
+            hist.append(q)
+    hi, hm = both(hist, oracle=False)
+    for q, a, b in zip(hist, hi, hm):
+        if (a["verdict"] != "ok" or a["F"] != q.want) and len(violations) < 5:
+            diffp = [x for x in set(a["F"]) | set(q.want) if a["F"].get(x) != q.want.get(x)]
+            violations.append(proj_violation("C13", "after a build with the option %s, a --needed build with the option %s did not produce the option-%s output: %s" %
+                                             ("off" if q.trailing else "on", "on" if q.trailing else "off", "on" if q.trailing else "off", diffp[:3]), q, a, b))
     # sources that end with an ordinary text line
     tl = []
     for k in range(200 if tier_ == "quick" else 2000):
@@ -706,7 +738,7 @@ def check_C13(tier_, sd, consts_ok, consts_detail):
             if len(violations) < 5:
                 violations.append(proj_violation("C13", "source ends with an ordinary text line but the output does not end with that line (+ line ending iff the option is on)", tl_on[k], a, tm[k],
                                                  extra={"on": short(x), "off": short(y), "last_line": p.last}))
-    cov = {"evaluations": 2 * n + 2 * len(tl), "distinct_nontrivial": len(nontriv),
+    cov = {"evaluations": 2 * n + 2 * len(tl) + len(hist), "distinct_nontrivial": len(nontriv), "needed_history_cases": len(hist),
            "rule": "every generated project built twice (option on / off), same controlled schedule; relation checked on the implementation's bytes: identical or on = off + line ending, temp files identical; "
                    "plus sources ending in an ordinary text line; distinct_nontrivial = distinct (on, off) output pairs",
            "relation_distribution": dict(rel), "text_line_ending_cases": ntl, "input_distribution": dist_of(base),
@@ -816,10 +848,11 @@ def check_C16(tier_, sd, consts_ok, consts_detail):
         ls[0] = ls[0].lstrip() or "first"
         ls = [l.rstrip() for l in ls]
         le = r.choice(["\n", "\r\n"])
-        body = ["+TXTPP#write " + ls[0]] + ["+" + l for l in ls[1:]]
+        cont = "+" if k % 2 else " "            # continuation lines repeat the prefix, or use as many spaces (a blank content line is then a line of spaces)
+        body = ["+TXTPP#write " + ls[0]] + [cont + l for l in ls[1:]]
         pre = r.choice([[], ["-TXTPP#tag TAG1", "-TXTPP#write stored"]])   # a stored tag must not be substituted into write output
         post = ["use TAG1"] if pre else []
-        if post: body = body + ["+"]        # one more (empty) argument puts the following text on its own line
+        if post: body = body + [cont]       # one more (empty) argument puts the following text on its own line
         src = le.join(pre + body) + le + (le.join(post) + le if post else "")
         p = Project("wr%d" % k); p.files = [("/s.txt.txtpp", src.encode())]; p.inputs = ["s.txt"]; p.sched = [0] * 4
         esc.append(p); emeta.append((ls, le, bool(pre)))
@@ -866,7 +899,7 @@ def check_C16(tier_, sd, consts_ok, consts_detail):
 def check_C14(tier_, sd, consts_ok, consts_detail):
     rng = Rng(sd).fork("C14")
     names = ["A", "AB", "B", "BA", "ABA", ""]
-    contents = ["", "A", "v\n", "v\r\nw", "B A"]
+    contents = ["", "A", "v\n", "v\r\nw", "B A", "p\r\nq\nr\r\n"]
     maxlen = 5 if tier_ == "quick" else 6
     lines = []
     for n in range(maxlen + 1):
@@ -917,7 +950,7 @@ def check_C14(tier_, sd, consts_ok, consts_detail):
         outcomes["create-err" if "err" in t[1:7] else "stored"] += 1
     cov = {"evaluations": len(cases) * 8 + len(projs), "distinct_nontrivial": len(set(m for m in model if " ok " in m)),
            "rule": "every sequence of <= 3 create/try_store pairs with names from {A, AB, B, BA, ABA, empty} (prefix-related names included) x every target line over {A,B,x} up to length %d "
-                   "x contents rotated over {empty, A, v LF, v CRLF w, B A}, followed by a probe line revealing the remaining store and two more creates; "
+                   "x contents rotated over {empty, A, v LF, v CRLF w, B A, a CRLF/LF mix}, followed by a probe line revealing the remaining store and two more creates; "
                    "each case run 8 times in-process with fresh hash seeds (all 8 must agree); plus whole-file lifecycle cases; distinct_nontrivial = distinct model observations with at least one successful op" % maxlen,
            "exhaustive": True, "exhaustive_bound": "<= 3 tags, lines of <= %d symbols" % maxlen, "tag_cases": len(cases), "repeats_per_case": 8, "whole_file_cases": len(projs),
            "outcome_distribution": dict(outcomes), "samples": [decode_case(cases[len(cases) // 2]), decode_case(cases[-1])]}
@@ -1284,7 +1317,10 @@ def check_C10(tier_, sd, consts_ok, consts_detail):
     return {"coverage": cov, "violations": violations}
 
 # ------------------------------------------------------------------ C11 inputs and names
-C11_NAMES = ["a.txtpp", "b.txt.txtpp", "c.txtpp.md", "plain.txt", "txtpp", ".txtpp", "e.txtpp.b.c", "my.file.txtpp.md", "x.y.txtpp", "f.txtp", "g.txtpp.bak.old"]
+# q.txt.txtpp and q.txtpp.txt are two DIFFERENT sources that happen to share the output name q.txt: both must be processed
+# (which one writes last is decided by the controlled schedule, identically in the model)
+C11_NAMES = ["a.txtpp", "b.txt.txtpp", "c.txtpp.md", "plain.txt", "txtpp", ".txtpp", "e.txtpp.b.c", "my.file.txtpp.md", "x.y.txtpp", "f.txtp", "g.txtpp.bak.old",
+             "q.txt.txtpp", "q.txtpp.txt"]
 
 def check_C11(tier_, sd, consts_ok, consts_detail):
     rng = Rng(sd).fork("C11")
@@ -1318,7 +1354,7 @@ def check_C11(tier_, sd, consts_ok, consts_detail):
         placed = []
         for d in dirs:
             for nm_ in C11_NAMES:
-                if r.chance(1, 4):
+                if r.chance(1, 4) or (nm_.startswith("q.") and d == "/" and k % 3 == 0):
                     path = (d.rstrip("/") + "/" + nm_)
                     p.files.append((path, ("content of %s\n" % path).encode())); placed.append(path)
         p.dirs = ["/sub", "/sub/deep", "/d.txtpp", "/emptydir"]
@@ -1342,8 +1378,8 @@ def check_C11(tier_, sd, consts_ok, consts_detail):
         verd[a["verdict"]] += 1
         init = dict(p.files)
         made = sorted(k for k, v in a["F"].items() if v is not None and k not in init)
-        if (a["verdict"], a["F"]) != (b["verdict"], b["F"]) and len(violations) < 5:
-            violations.append(proj_violation("C11", "the set of processed sources / the names of the outputs / the verdict differ from the specification (Run.resolve_inputs, scan_dir, Path.remove_txtpp)", p, a, b))
+        if (a["verdict"], a["F"], sorted(trace_list(a))) != (b["verdict"], b["F"], sorted(trace_list(b))) and len(violations) < 5:
+            violations.append(proj_violation("C11", "the set of processed sources (task trace) / the names of the outputs / the verdict differ from the specification (Run.resolve_inputs, scan_dir, Path.remove_txtpp)", p, a, b))
         if made: nontriv.add((tuple(p.inputs), tuple(made)))
     for kk in nbad[:5]:
         violations.append({"found": True, "replay": {"property": "C11", "what": "is_txtpp_file / remove_txtpp differ from the specification (props/C11.v)", "case": ncases[kk],
@@ -1393,7 +1429,7 @@ def check_C17(tier_, sd, consts_ok, consts_detail):
                     body = ["-TXTPP#run pwd -P", '=TXTPP#run printf %s "$TXTPP_FILE"', "",
                             "+TXTPP#run printf '%s|' \"a", "+b   c", "+d\"", "",
                             "~TXTPP#run printf 'multi'", "~  ;  printf 'line'", ""]
-                    if status_fail: body += ["-TXTPP#run exit %d" % (1 + r.below(3))]
+                    if status_fail: body += [r.choice(["-TXTPP#run exit %d" % (1 + r.below(3)), "-TXTPP#run echo partial; kill -9 $$", "-TXTPP#run kill -TERM $$; echo late"])]
                     p.files = [(src, ("\n".join(body) + "\n").encode())]
                     # decoy directories with the same relative names under the process cwd
                     p.dirs = ["/decoy/sub/deep/er", "/decoy/deep/er", "/decoy/er", "/other", "/sub/deep/er"]
